@@ -243,13 +243,20 @@ func subtleSection(x *h.X) {
 		}
 		x.NonTrivial()
 		// retention probe (reported, not judged: see the scope rule in the file comment)
+		// The probe runs on a SEPARATE instance built for it: using a primitive while its (legitimately retained) key
+		// buffer is overwritten may leave lazily derived state behind, which must not leak into the judged instance.
 		retained := false
 		if len(args) > 0 && p.class != keycat.ClassNone {
-			gs.Flip()
-			if err := agree(p, twin); err != nil {
-				retained = true
+			tp := newTracker(x, t.what+" (retention probe)")
+			gp := tp.place(l, args...)
+			if pp, _, err := e.build(gp.Args); err == nil {
+				gp.Flip()
+				if err := agree(pp, twin); err != nil {
+					retained = true
+				}
+				gp.Flip()
 			}
-			gs.Flip()
+			tp.drop(gp)
 		} else if len(args) > 0 {
 			retained = customRetains(e.name, obj, twinObj, gs)
 		}
